@@ -32,6 +32,8 @@ def confirm(mid):
     out = {}
     try:
         r = sh(f"git -C {wt} apply {os.path.join(d, 'patch.diff')}")
+        if r.returncode:
+            r = sh(f"git -C {wt} apply --3way {os.path.join(d, 'patch.diff')}")
         out["applies"] = r.returncode == 0
         if not out["applies"]:
             out["apply_error"] = r.stderr[-300:]
@@ -67,7 +69,11 @@ def run(mid, tier="quick", inplace=False):
         r = sh(f"git -C /repo apply {os.path.join(d, 'patch.diff')}")
     else:
         sh(f"git -C /repo worktree remove --force {wt}")
-        r = sh(f"git -C /repo worktree add {wt} HEAD && git -C {wt} apply {os.path.join(d, 'patch.diff')}")
+        r = sh(f"git -C /repo worktree add {wt} HEAD")
+        if not r.returncode:
+            r = sh(f"git -C {wt} apply {os.path.join(d, 'patch.diff')}")
+            if r.returncode:      # /repo moved on (later fix: commits): merge the change
+                r = sh(f"git -C {wt} apply --3way {os.path.join(d, 'patch.diff')}")
         env["VERIF_REPO"] = wt
     if r.returncode:
         raise SystemExit("patch does not apply: " + r.stderr)
